@@ -37,7 +37,7 @@ Theorem C18_src_args : forall e cr ascii ws f, src_import e (src_module cr) = IF
     match f ascii (ws ++ repeat (L "00000000") (8 - length ws)) with
     | PRetJ JNull | PRetEmpty | PNone | PRaise _ | PRaiseImport _ => Some []
     | PRetJ j => Some [(L "SRC Details", j)]
-    | PRetT t => Some [(L "@loads_strict:SRC Details", js t)]
+    | PRetT t => src_details_text t
     | PNonStr => None
     end.
 Proof. exact src_parser_arguments. Qed.
